@@ -26,6 +26,10 @@ SHARED = [
     ('"{_variant} first={_0}"', True, True),
     ('"first={_0:>3}"', False, True),
     ('"{x}", x = _variant', True, False),
+    # a bare placeholder at enum level is a "transparent" call: it still applies to every variant without its own format
+    ('"{_0}"', False, True),
+    ('"{_0:>5}"', False, True),
+    ('"{_0:?}"', False, True),
 ]
 
 
@@ -45,6 +49,8 @@ def gen_enum(rng, idx, conv):
             shape = "one"
         if trait != "Display" and shape == "unit":
             shape = "unit_attr"       # implicit unit variants are Display-only
+        if shape == "two" and sh_src and not mentions and rng.below(2):
+            shape = "two_shared"      # several fields, no format of its own: the enum-level format is the variant's format
         vcase = rng.choice([None, None, None] + G.CASES)
         own = None
         if shape == "unit":
@@ -54,6 +60,8 @@ def gen_enum(rng, idx, conv):
             decl, pat, val, binds = vn, f"E::{vn}", f"E::{vn}", []
         elif shape == "onenamed":
             decl, pat, val, binds = f"{vn} {{ f: u8 }}", f"E::{vn} {{ f }}", f"E::{vn} {{ f: {10 + vi} }}", ["f"]
+        elif shape == "two_shared":
+            decl, pat, val, binds = f"{vn}(u8, u16)", f"E::{vn}(_0, _1)", f"E::{vn}({10 + vi}, {300 + vi})", ["_0", "_1"]
         elif shape == "two":
             own = rng.choice(['"{_0}-{_1}"', '"{1}+{0}", _0, _1', '"{:>3}|{b}", _0, b = _1'])
             decl, pat, val, binds = f"{vn}(u8, u16)", f"E::{vn}(_0, _1)", f"E::{vn}({10 + vi}, {300 + vi})", ["_0", "_1"]
@@ -134,6 +142,22 @@ def behaviour(res, inproc, rng, tier):
         cf.add(k, src, main_call=f"c{k}::run();")
         descs[str(k)] = f"#[derive({X})] #[{an}({shared})] enum E {{ #[{an}(\"{{_0:p}}\")] A(&'static u8), #[{an}(\"{{f:p}}|{{}}\", 1)] B {{ f: &'static u8 }}, #[{an}(\"{{:p}}~{{_1}}\", *_0)] C(&'static u8, u8) }}"
         k += 1
+    # an enum-level format that is a bare placeholder (a "transparent" call) is still the format of every variant
+    # that has none of its own, whatever its number of fields and whichever trait the placeholder names
+    for X, an, ch in (("Display", "display", ""), ("LowerHex", "lower_hex", "x"), ("Binary", "binary", "b")):
+        for spec in ("", "x", "?", "o"):
+            ph = "{_0" + (":" + spec if spec else "") + "}"
+            fmt_ = "{" + (":" + spec if spec else "") + "}"
+            src = (f"#[derive(derive_more::{X})] #[{an}(\"{ph}\")] pub enum E {{ A(u8, u16), B(u8), #[{an}(\"v={{_0}}\")] C(u8), "
+                   f"#[{an}(\"{{_1}}\")] D(u8, u16) }}\n"
+                   f"pub fn run() {{\n"
+                   f"  check(\"{k}\", \"A\", format!(\"{{:{ch}}}\", E::A(11, 300)), format!(\"{fmt_}\", 11u8));\n"
+                   f"  check(\"{k}\", \"B\", format!(\"{{:{ch}}}\", E::B(12)), format!(\"{fmt_}\", 12u8));\n"
+                   f"  check(\"{k}\", \"C\", format!(\"{{:{ch}}}\", E::C(13)), String::from(\"v=13\"));\n"
+                   f"  check(\"{k}\", \"D\", format!(\"{{:{ch}}}\", E::D(14, 301)), String::from(\"301\")); }}")
+            cf.add(k, src, main_call=f"c{k}::run();")
+            descs[str(k)] = f"#[derive({X})] #[{an}(\"{ph}\")] enum E {{ A(u8, u16), B(u8), #[{an}(\"v={{_0}}\")] C(u8), #[{an}(\"{{_1}}\")] D(u8, u16) }}"
+            k += 1
     d = C.scratch_crate("c07-enums", cf.source('unsafe { println!("DONE checks={} fails={}", CHECKS, FAILS); }'))
     try:
         rc, out, err = C.scratch_run(d)
